@@ -3,12 +3,16 @@
 
    RecursiveParser::parseStructDeclaration (recursive_parser.cpp:628) registers the struct in struct_definitions_, rejects a
    member of the struct's own type that is not a pointer ("Self-recursive struct member"), and after the closing brace calls
-   TypeUtilityParser::detectCircularReference (parsers/type_utility_parser.cpp:914) for every value member: a depth-first walk
-   over struct_definitions_ along value members that reports whether the struct being defined is reached again.  The walk keeps
-   the names on the CURRENT PATH in `visited` (inserted on entry, erased on return), so
-     - its recursion depth is bounded by the number of struct definitions (StructGraphTotal.detect_total_l): no cycle of
+   TypeUtilityParser::detectCircularReference (parsers/type_utility_parser.cpp:914) for every value member with a FRESH
+   `visited` set: a depth-first walk over struct_definitions_ along value members that reports whether the struct being
+   defined is reached again.  `visited` is passed by reference; since fix 08b0ce5 a struct that was walked STAYS in it
+   (before, it was erased on return, so `visited` held the names of the current path only).  Hence
+     - the recursion depth is bounded by the number of struct definitions (StructGraphTotal.detect_total_l): no cycle of
        definitions, through the start or not, makes it run forever;
-     - but a struct that is reached along several paths is walked once per path (finding C10-struct-diamond-exponential). *)
+     - every struct is walked at most once per check, and the number of activations of one check is at most
+       1 + (number of value members of the structs walked) (StructGraphTotal.detect_calls_linear_l);
+     - [detectu] is the walk as it was before 08b0ce5 (former finding C10-struct-diamond-exponential): a struct reached
+       along several paths was walked once per path. *)
 From Coq Require Import List Arith Bool Ascii String.
 From Cb Require Import C10.Typedefs.
 Import ListNotations.
@@ -34,8 +38,64 @@ Fixpoint sg_set (g : sgraph) (k : string) (v : sdef) : sgraph :=
 Definition is_value (k : mkind) : bool := match k with MValue => true | _ => false end.
 Definition is_ptr (k : mkind) : bool := match k with MPtr => true | _ => false end.
 
-(* the member loop of detectCircularReference: value members in order, early return on `true`; n counts activations *)
-Fixpoint walk_members (rec : string -> option bool * nat) (ms : list member) (n : nat) : option bool * nat :=
+(* result of one activation: the answer (None = out of fuel), the number of activations spent, `visited` afterwards *)
+Definition dres := (option bool * nat * list string)%type.
+Definition d_ans (r : dres) : option bool := fst (fst r).
+Definition d_calls (r : dres) : nat := snd (fst r).
+Definition d_vis (r : dres) : list string := snd r.
+
+(* the member loop of detectCircularReference: value members in order, early return on `true`; n counts activations;
+   `vis` is the set every recursive call reads AND extends (std::unordered_set<std::string> &visited) *)
+Fixpoint walk_members (rec : string -> list string -> dres) (ms : list member) (n : nat) (vis : list string) : dres :=
+  match ms with
+  | [] => (Some false, n, vis)
+  | (mt, k) :: r =>
+      if is_value k then
+        match rec mt vis with
+        | (None, c, v) => (None, n + c, v)
+        | (Some true, c, v) => (Some true, n + c, v)
+        | (Some false, c, v) => walk_members rec r (n + c) v
+        end
+      else walk_members rec r n vis                                (* pointer and array members are skipped *)
+  end.
+
+(* detectCircularReference(struct_name = start, member_type = ty, visited, path); fuel = C++ recursion depth.
+   Answer, number of activations, visited set on return (most recently marked first). *)
+Fixpoint detectc (fuel : nat) (g : sgraph) (start ty : string) (visited : list string) : dres :=
+  match fuel with
+  | 0 => (None, 0, visited)
+  | S f =>
+      match sg_lookup g ty with
+      | None => (Some false, 1, visited)                           (* not a struct *)
+      | Some d =>
+          if s_fwd d then (Some false, 1, visited)                 (* forward declaration only *)
+          else if String.eqb ty start then (Some true, 1, visited) (* back at the struct being defined *)
+          else if mem visited ty then (Some false, 1, visited)     (* walked before (or being walked): nothing new *)
+          else walk_members (fun mt v => detectc f g start mt v) (s_members d) 1 (ty :: visited)
+                                                                   (* marked; NOT unmarked on return (fix 08b0ce5) *)
+      end
+  end.
+
+Definition detect (fuel : nat) (g : sgraph) (start ty : string) (visited : list string) : option bool :=
+  d_ans (detectc fuel g start ty visited).
+(* one check as parseStructDeclaration starts it: fresh visited set *)
+Definition detect_calls (g : sgraph) (start ty : string) : nat := d_calls (detectc (S (List.length g)) g start ty []).
+Definition detect_walked (g : sgraph) (start ty : string) : list string := d_vis (detectc (S (List.length g)) g start ty []).
+
+(* what the leaf driver can observe of one check: the answer and the visited set on return *)
+Definition check_query (g : sgraph) (start ty : string) : bool * list string :=
+  let r := detectc (S (List.length g)) g start ty [] in
+  (match d_ans r with Some true => true | _ => false end, d_vis r).
+
+(* cost measures of a table: value members of one definition / of the structs of a list / of the whole table *)
+Definition nvalue (d : sdef) : nat := List.length (filter (fun m : member => is_value (snd m)) (s_members d)).
+Definition nv (g : sgraph) (k : string) : nat := match sg_lookup g k with Some d => nvalue d | None => 0 end.
+Fixpoint nv_sum (g : sgraph) (l : list string) : nat := match l with [] => 0 | k :: r => nv g k + nv_sum g r end.
+Fixpoint value_edges (g : sgraph) : nat := match g with [] => 0 | (_, d) :: r => nvalue d + value_edges r end.
+Fixpoint member_edges (g : sgraph) : nat := match g with [] => 0 | (_, d) :: r => List.length (s_members d) + member_edges r end.
+
+(* ---- the walk BEFORE fix 08b0ce5: `visited.erase(normalized_type)` on return, i.e. visited = names on the current path *)
+Fixpoint walk_members_u (rec : string -> option bool * nat) (ms : list member) (n : nat) : option bool * nat :=
   match ms with
   | [] => (Some false, n)
   | (mt, k) :: r =>
@@ -43,30 +103,25 @@ Fixpoint walk_members (rec : string -> option bool * nat) (ms : list member) (n 
         match rec mt with
         | (None, c) => (None, n + c)
         | (Some true, c) => (Some true, n + c)
-        | (Some false, c) => walk_members rec r (n + c)
+        | (Some false, c) => walk_members_u rec r (n + c)
         end
-      else walk_members rec r n                                    (* pointer and array members are skipped *)
+      else walk_members_u rec r n
   end.
 
-(* detectCircularReference(struct_name = start, member_type = ty, visited, path); fuel = C++ recursion depth.
-   Result and number of activations. *)
-Fixpoint detectc (fuel : nat) (g : sgraph) (start ty : string) (visited : list string) : option bool * nat :=
+Fixpoint detectu (fuel : nat) (g : sgraph) (start ty : string) (path : list string) : option bool * nat :=
   match fuel with
   | 0 => (None, 0)
   | S f =>
       match sg_lookup g ty with
-      | None => (Some false, 1)                                    (* not a struct *)
+      | None => (Some false, 1)
       | Some d =>
-          if s_fwd d then (Some false, 1)                          (* forward declaration only *)
-          else if String.eqb ty start then (Some true, 1)          (* back at the struct being defined *)
-          else if mem visited ty then (Some false, 1)              (* already on the path: a cycle elsewhere *)
-          else walk_members (fun mt => detectc f g start mt (ty :: visited)) (s_members d) 1
+          if s_fwd d then (Some false, 1)
+          else if String.eqb ty start then (Some true, 1)
+          else if mem path ty then (Some false, 1)
+          else walk_members_u (fun mt => detectu f g start mt (ty :: path)) (s_members d) 1
       end
   end.
-
-Definition detect (fuel : nat) (g : sgraph) (start ty : string) (visited : list string) : option bool :=
-  fst (detectc fuel g start ty visited).
-Definition detect_calls (g : sgraph) (start ty : string) : nat := snd (detectc (S (List.length g)) g start ty []).
+Definition detectu_calls (g : sgraph) (start ty : string) : nat := snd (detectu (S (List.length g)) g start ty []).
 
 (* ---------------------------------------------------------------- struct declarations *)
 Inductive sdecl :=
@@ -98,7 +153,7 @@ Fixpoint sg_run (g : sgraph) (ds : list sdecl) : sgraph * option serr :=
               end
   end.
 
-(* the family of finding C10-struct-diamond-exponential: struct M0 { int v; }; struct M(i+1) { Mi a; Mi b; }; *)
+(* the family of former finding C10-struct-diamond-exponential: struct M0 { int v; }; struct M(i+1) { Mi a; Mi b; }; *)
 Fixpoint dname (n : nat) : string := match n with 0 => "M" | S k => String "x" (dname k) end.
 Fixpoint diamond (n : nat) : list sdecl :=
   match n with
